@@ -84,7 +84,12 @@ def make_case(index, rng, tier):
         if rng.randrange(6) == 0:
             msgs.insert(0, b"PROXY TCP4 1.2.3.4 5.6.7.8 11 22\r\n")
         cfg = rng.choice(LIMITS)
-        k = rng.randrange(6)
+        k = rng.randrange(7)
+        if k == 6:
+            # limit_request_field_size = 0 is documented as 'unlimited': a very long field under a small field count
+            cfg = {"limit_request_field_size": 0, "limit_request_fields": rng.choice([1, 2, 3, 5])}
+            size = rng.choice([9000, 17000, 20000, 26000, 40000])
+            msgs[rng.randrange(len(msgs))] = b"GET /big HTTP/1.1\r\nHost: a\r\nX-Big: " + b"v" * size + b"\r\n\r\n"
         if k == 0:
             # stray line terminators / blanks in front of a request line (start of the connection or after a body)
             i = rng.randrange(len(msgs))
@@ -180,6 +185,11 @@ def run(case, choices):
     # (2) byte at a time
     if n <= 1500:
         check(tuple(range(1, n)), "bytewise")
+    # (2b) regular read sizes (what a slow link or a small receive buffer produces), for streams too long for the byte-wise sweep
+    if n > 1500:
+        for b in (100, 1000, 4096):
+            if not check(tuple(range(b, n, b)), "blocks%d" % b):
+                break
     # (3) seeded k-cut schedules, biased to delimiters
     delims = [i for i, c in enumerate(data) if c in (13, 10)] or [0]
     for _ in range(6):
